@@ -2,6 +2,8 @@
 import PdbVerif.Driver.Json
 import PdbVerif.Driver.BJson
 import PdbVerif.Model.Table
+import PdbVerif.Model.TableWorld
+import PdbVerif.Model.TableJoin
 
 namespace Driver.ModelB
 open Lean Driver Driver.B Tbl
@@ -23,6 +25,12 @@ def runHist (db : Db) : List Tbl.Op → List Json
   | op :: rest =>
     let (db', out) := Model.step db op
     Json.mkObj [("out", outJ out), ("db", dbJ db')] :: runHist db' rest
+
+def runWorld (w : Model.World) : List WOp → List Json
+  | [] => []
+  | op :: rest =>
+    let (w', out) := Model.wstep roundtripRepresentable w op
+    Json.mkObj [("out", outJ out), ("objs", worldJ w')] :: runWorld w' rest
 
 def op (name : String) (j : Json) : Except String (Option Json) := do
   match name with
@@ -53,6 +61,16 @@ def op (name : String) (j : Json) : Except String (Option Json) := do
     let db ← dbOfJson (← j.getObjVal? "db")
     let ops ← (← jArr j "ops").toList.mapM opOfJson
     pure (some (.arr (runHist db ops).toArray))
+  | "intersection" =>
+    let db ← dbOfJson (← j.getObjVal? "db")
+    let m ← (← jArr j "match").toList.mapM (fun x => do let s ← asStr x; pure s.toList)
+    pure (some (match Model.getIntersection db (← strOf j "column") m with
+      | .ok per => .arr (per.map (fun rows => Json.arr (rows.map (fun vs => Json.arr (vs.map valJ).toArray)).toArray)).toArray
+      | .error e => errJ e))
+  | "world" =>
+    let objs ← (← jArr j "objs").toList.mapM objOfJson
+    let ops ← (← jArr j "ops").toList.mapM wopOfJson
+    pure (some (.arr (runWorld objs ops).toArray))
   | _ => pure none
 
 end Driver.ModelB
